@@ -105,6 +105,29 @@ def gen_pair(rng, maxlen=60):
     return pat, kind, L, R
 
 
+def gen_lopsided(rng, quick):
+    """Long-versus-short operands: skip-ahead / bisection shortcuts in a merge kernel only engage for a large length
+    ratio or a long run, and their off-by-one mistakes sit at positions 64*k, at the last element of the short
+    operand, at the first/last element of the long one.  -> list of (L, R)."""
+    out = []
+    for ell in ([65, 130, 260] if quick else [64, 65, 66, 96, 129, 200, 257, 300, 520]):
+        kind, pool = make_pool(rng, ell * rng.choice([1, 2, 3]) + 8)
+        long_ = pick(rng, pool, ell)
+        outside = [v for v in pool if v not in set(long_)] or [long_[-1] + 1 if long_[-1] + 1 < M32 else long_[0] - 1]
+        shorts = [[long_[-1]], [long_[0]], [long_[ell // 2]], [long_[0], long_[-1]],
+                  [long_[i] for i in range(0, ell, 64)], [long_[i] for i in range(63, ell, 64)],
+                  sorted({rng.choice(outside), long_[-1]}), sorted({rng.choice(outside), long_[64 % ell]}),
+                  sorted(set(rng.sample(outside, min(2, len(outside))))),
+                  sorted(set(rng.sample(long_, 3)) | {long_[-1]})]
+        if ell > 64:
+            shorts += [[long_[64]], [long_[63]], [long_[1], long_[64]]]
+        for sh in shorts:
+            sh = [v for v in sh if 0 <= v < M32]
+            out.append((long_, sh))
+            out.append((sh, long_))
+    return out
+
+
 def gen_many(rng):
     """A list of 4-6 strictly increasing arrays (some empty) of length 0..12 over a small or boundary-heavy universe."""
     k = rng.randint(4, 6)
@@ -149,6 +172,9 @@ def c08_suites(ctx, wrappers=True):
         meta.append((pat, kind))
     suites.append({"kind": "bin_explicit", "name": "bin/random", "cases": cases, "patterns": dict(collections.Counter(m[0] for m in meta)),
                    "pools": dict(collections.Counter(m[1] for m in meta))})
+    lop = gen_lopsided(rng, quick)
+    suites.append({"kind": "bin_explicit", "name": "bin/lopsided", "cases": [[op, L, R, False] for L, R in lop for op in ops],
+                   "patterns": {"long-vs-short": len(lop)}, "pools": {}})
     suites.append({"kind": "many_rows", "name": "many/small", "U": list(range(4)), "maxk": 3})
     suites.append({"kind": "many_rows", "name": "many/boundary", "U": B, "maxk": 3})
     many = [gen_many(rng) for _ in range(300 if quick else 1000)]
